@@ -157,3 +157,35 @@ func H_c03_canread() {
 	}
 	verif_witness()
 }
+
+// H_c03_field_sequence: reading a length-prefixed field as bytes, as text or as UTF-16 text
+// (whatever its length, odd ones included) leaves the rest of the packet exactly as it
+// arrived: the field that follows decodes to its own bytes and the packet buffer the
+// parser was given is not written to.
+func H_c03_field_sequence() {
+	how := nondet_choice("read-as", 3)
+	n := nondet_choice("field-length", verif_bound("field-sequence-text-max", 4, 6)+1)
+	wide := nondet_bool("follower-is-64-bit")
+	buf := []byte{0, 0, 0, byte(n)}
+	buf = append(buf, nondet_bytes("field", n)...)
+	follower := nondet_bytes("follower", 8)
+	buf = append(buf, follower...)
+	orig := append([]byte(nil), buf...)
+	p := NewParser(buf)
+	switch how {
+	case 0:
+		verifSameBytes(p.ParseBytes(), orig[4:4+n], "the byte field is returned as sent")
+	case 1:
+		p.ParseString()
+	case 2:
+		p.ParseUTF16String()
+	}
+	verifSameBytes(p.Buffer(), orig[4+n:], "reading a field leaves the following fields as they arrived")
+	verifSameBytes(buf, orig, "reading a field does not write to the packet")
+	if wide {
+		verif_assert(p.ParseInt64() == int64(verifBE64(orig[4+n:])), "the 64-bit field after a text field decodes to its own bytes")
+	} else {
+		verif_assert(p.ParseInt32() == int(verifBE32(orig[4+n:])), "the 32-bit field after a text field decodes to its own bytes")
+	}
+	verif_witness()
+}
